@@ -588,6 +588,32 @@ fn check_tty(pad: u16, input: &[u8], cuts: &[u16], lockstep: bool, pause_us: u16
 impl Property for C03 {
     type Case = Case;
 
+    fn fuzz(&self) -> Option<FuzzSpec> {
+        Some(FuzzSpec { target: "c03", jobs: 8, runs: 150_000, max_len: 98, seeds: 300 })
+    }
+
+    /// two bytes of read partition, then the input for the production decoders (every single
+    /// cut position is tried as well for these lengths)
+    fn case_from_bytes(&self, data: &[u8]) -> Option<Case> {
+        if data.len() < 2 {
+            return None;
+        }
+        let cuts = vec![(data[0] as u16) << 8 | 0x55, (data[1] as u16) << 8 | 0xaa];
+        Some(Case::Production { input: data[2..].to_vec(), parts: vec![cuts] })
+    }
+
+    fn case_to_bytes(&self, case: &Case) -> Option<Vec<u8>> {
+        match case {
+            Case::Production { input, parts } => {
+                let cuts = parts.first().cloned().unwrap_or_default();
+                let mut out = vec![cuts.first().map(|c| (c >> 8) as u8).unwrap_or(0), cuts.get(1).map(|c| (c >> 8) as u8).unwrap_or(0)];
+                out.extend_from_slice(input);
+                Some(out)
+            }
+            _ => None,
+        }
+    }
+
     fn id(&self) -> &'static str {
         "C03"
     }
